@@ -192,6 +192,7 @@ def run_batch(run, frames, label, wit_extra=None, followups=(), big_device=False
     CLOCK.settle()
     n0 = len(lan.frames)
     srcs = [f[0] if isinstance(f, tuple) else INJ for f in frames]
+    bcast = [isinstance(f, tuple) and len(f) > 2 and f[2] == "broadcast" for f in frames]
     frames = [f[1] if isinstance(f, tuple) else f for f in frames]
     classes = [classify(f) for f in frames]
     for c, sst in zip(classes, srcs):
@@ -201,8 +202,8 @@ def run_batch(run, frames, label, wit_extra=None, followups=(), big_device=False
     if wit_extra:
         wit.update(wit_extra)
     # the UDP director hands each datagram to core.deferred(): same here, straight into the device's node
-    for f, sst in zip(frames, srcs):
-        core.deferred(dev.node.response, PDU(f, source=Address(sst), destination=Address(DEV)))
+    for f, sst, bc in zip(frames, srcs, bcast):
+        core.deferred(dev.node.response, PDU(f, source=Address(sst), destination=LocalBroadcast() if bc else Address(DEV)))
     try:
         for delay, sst, o in followups:
             CLOCK.drive(duration=delay, max_steps=200000)
@@ -417,8 +418,15 @@ def main():
         body = R.tlv_encode([ctx(0, objid(2, 1)), ctx(1, b"\x55")])
         routed = W.npci_build({"snet": 7, "sadr": b"\x05", "der": True,
                                "payload": W.apci_build({"type": W.CONFIRMED, "max_segs": 0, "max_resp": 5, "invoke": 160, "service": 12, "payload": body})})
+        if rng.random() < 0.5:
+            # the router announces the number of this network: once with a wrong number (a corrupted octet, a misconfigured
+            # second router), then with the right one - the device learns, and learns better
+            nets = rng.choice([(6, 5), (5, 6, 5), (5,), (5, 5), (1, 2, 3)])
+            garbage = [(rng.choice([INJ, INJ2]), W.npci_build({"net_message": 0x13, "payload": bytes([n >> 8, n & 0xFF, rng.choice([0, 1])])}), "broadcast")
+                       for n in nets] + garbage
+            run.count("batches_with_network_number_announcements")
         order = garbage + [(INJ, routed)] if rng.random() < 0.7 else [(INJ, routed)] + garbage + [(INJ, routed.replace(b"\xa0\x0c", b"\xa1\x0c", 1))]
-        run.case(("routed", run.shard[0], i), sample={"routed_request_after_foreign_garbage": [o[:20] for st, o in order[:3]]}, sample_key=("routed", i < 1))
+        run.case(("routed", run.shard[0], i), sample={"routed_request_after_foreign_garbage": [o[1][:20] for o in order[:3]]}, sample_key=("routed", i < 1))
         run_batch(run, order, "routed-request-after-foreign-garbage")
     # 2c. dialogues on a segmented answer: the device has started a segmented response, the next frame from the client is
     #     a (possibly corrupted) segment-ack, an abort, the request again, garbage - then silence
